@@ -57,6 +57,7 @@ def plan(tier, seed):
     acc = [{'shape': ['<a k="', 0, 1, '">', 2, '</a>']}, {'shape': ["<a k='v", 0, "' j=\"", 1, '"/>', 2]},
            {'shape': ['<!-- ', 0, ' -->', 1]}, {'shape': ['<a>', 0, '<b>', 1, '</b>', 2, '</a>']}]
     famA = dict(name='valid_never_rejected', module=H, fn='accept', jobs=acc, timeout=600, vacuity=1, mutants=[])
+    famN = dict(name='valid_names_accepted', module=H, fn='valid_names', jobs=[{}], timeout=300, vacuity=1, mutants=[])
     from checks.hC11 import ERR_CLAUSES
     names = [n for n, _ in ERR_CLAUSES]
     groups = [names[i:i + 3] for i in range(0, len(names), 3)]
@@ -93,5 +94,5 @@ def plan(tier, seed):
                 % (3 if quick else 4, len(prods), len(fe), len(acc), len(names), 2 if quick else 3)),
         assumptions=['validity of a token: source[pos:pos+len(token)] == token',
                      'front end executed with the stubbed static-attribute repr (as in C03)'],
-        families=[famT, famP, famL, famF, famA, famH],
+        families=[famT, famP, famL, famF, famA, famN, famH],
     )
